@@ -183,8 +183,23 @@ func (w *world) newRequest(method, path, by string) *request {
 }
 
 func httpReq(r *request) *http.Request {
-	return &http.Request{Method: r.method, URL: &url.URL{Path: r.path}, RequestURI: r.path, RemoteAddr: fmt.Sprintf("10.0.3.%d:4%03d", 1+r.id%200, r.id),
+	return &http.Request{Method: r.method, URL: &url.URL{Path: r.path}, RequestURI: r.path, RemoteAddr: remoteAddr(r),
 		Header: http.Header{"X-Req": []string{strconv.Itoa(r.id)}}, Proto: "HTTP/1.1"}
+}
+
+// remoteAddr: IPv4 and (every fifth request) bracketed IPv6 peers.
+func remoteAddr(r *request) string {
+	if r.id%5 == 4 {
+		return fmt.Sprintf("[2001:db8::%x]:4%03d", 1+r.id, r.id)
+	}
+	return fmt.Sprintf("10.0.3.%d:4%03d", 1+r.id%200, r.id)
+}
+
+func clientIP(r *request) string {
+	if r.id%5 == 4 {
+		return fmt.Sprintf("2001:db8::%x", 1+r.id)
+	}
+	return fmt.Sprintf("10.0.3.%d", 1+r.id%200)
 }
 
 func (w *world) reqOf(store *httpd.Store, table map[string]*request) *request {
@@ -265,7 +280,7 @@ func (w *world) genPath() (string, string) {
 	ch := simrt.Choose
 	seg := func() string { return []string{"1", "2", "zz", "u", "x", "t"}[ch("path.seg", 6)] }
 	method := []string{"GET", "POST", "DELETE"}[ch("req.method", 3)]
-	switch ch("path.kind", 10) {
+	switch ch("path.kind", 13) {
 	case 0:
 		return method, "/"
 	case 1:
@@ -284,8 +299,14 @@ func (w *world) genPath() (string, string) {
 		return method, "/u/" + seg() // matches /u/:x for POST only; for GET it walks into :a and fails
 	case 8:
 		return method, "/p/" + seg() + "/" + seg() + "/" + seg() + "/" + seg()
-	default:
+	case 9:
 		return method, "/w/" + seg() + "/x/" + seg() // partial match, then nothing
+	case 10:
+		return method, "/u/" + seg() + "/" // trailing slash: an empty last segment
+	case 11:
+		return method, "/f//" + seg() // empty segment inside
+	default:
+		return method, "/v/" + seg() + "/t"
 	}
 }
 
@@ -767,7 +788,7 @@ func (w *world) mainC15() {
 			w.violate("C15", "beg-end-count", fmt.Sprintf("request %d (%s %s, tid %s, behaviour %+v): %d REQ_BEG and %d REQ_END records", r.id, r.method, r.path, r.tid, b, len(beg), len(end)))
 			continue
 		}
-		ip := fmt.Sprintf("10.0.3.%d", 1+r.id%200)
+		ip := clientIP(r)
 		for _, lr := range []logRec{beg[0], end[0]} {
 			if lr.method != r.method || lr.path != r.path || lr.ip != ip || lr.level != "INFO" {
 				w.violate("C15", "record-fields", fmt.Sprintf("request %d (%s %s from %s): record says %q", r.id, r.method, r.path, ip, clip(lr.raw)))
